@@ -197,6 +197,12 @@ def run(ctx):
         drive_and_validate(ctx, zr, "pebble", "pebble-rand-p" + ps,
                            ["-random", nrand, "-len", "80", "-seed", seed, "-pool", ps, "-defwb"],
                            True, stats, samples)
+    if ctx.quick() and 2 not in pools:
+        # the empty key as a STORED key exists only in pool 2 (random mode stores every position):
+        # always give it a short run, whatever pool the seed selected
+        drive_and_validate(ctx, zr, "pebble", "pebble-rand-emptykey",
+                           ["-random", "200", "-len", "60", "-seed", seed, "-pool", "2", "-defwb"],
+                           True, stats, samples)
     for p in mpools:
         ps = str(p)
         # mem: general corpus with the trigger of the recorded finding kept out
